@@ -76,7 +76,9 @@ func NewMatcher(t MatchType, n, v string) (*Matcher, error) {
 }
 
 func (m *Matcher) String() string {
-	if strings.ContainsFunc(m.Name, isReserved) {
+	// An empty name is quoted too: the unquoted form `="value"` is rejected by
+	// every parser, so the printed matcher could not be parsed back.
+	if m.Name == "" || strings.ContainsFunc(m.Name, isReserved) {
 		return fmt.Sprintf(`%s%s%s`, strconv.Quote(m.Name), m.Type, strconv.Quote(m.Value))
 	}
 	return fmt.Sprintf(`%s%s"%s"`, m.Name, m.Type, openMetricsEscape(m.Value))
